@@ -5,6 +5,7 @@ import (
 	"fmt"
 	"sort"
 	"strings"
+	"time"
 
 	"github.com/fufuok/cache/verifsim/simrt"
 )
@@ -36,6 +37,7 @@ func shrinkCase(c *Case, o *Outcome, rule string) (*Case, *Outcome) {
 	}
 	best, bo := cloneCase(c), o
 	budget := 600
+	deadline := time.Now().Add(60 * time.Second)
 	// try a candidate under several schedule sources
 	try := func(cand *Case) (*Case, *Outcome) {
 		variants := []func(*ConcScenario){
@@ -45,7 +47,8 @@ func shrinkCase(c *Case, o *Outcome, rule string) (*Case, *Outcome) {
 			func(s *ConcScenario) { s.Replay = nil; s.SchedSeed = simrt.Mix64(s.SchedSeed + 2) },
 		}
 		for _, v := range variants {
-			if budget <= 0 {
+			if budget <= 0 || time.Now().After(deadline) {
+				budget = 0
 				return nil, nil
 			}
 			budget--
